@@ -75,6 +75,8 @@ def build(active_known=frozenset()):
     pack = Pack("C05", "Equality is an equivalence that hashing and lookup respect")
     pack.trust("pyrsistent plist/pdeque hash as hash(tuple(self)); pvectorc hashes with its own algorithm (no relation to tuple hashing is assumed); Python's tuple hash is a function of the element hashes, so pairwise-equal elements with equal hashes give equal tuple hashes")
     pack.trust("iterating a PersistentList (native SeqIterator over first/rest) yields the items of the wrapped plist in order")
+    pack.trust("immutables.Map == Map compares sizes and then every entry of the left map with the right one by ==; Map == <other class> is NotImplemented (reflected __eq__ runs); "
+               "collections.abc.Set.__eq__ is 'same length and every member of self is in other'; a map's size is the cardinality of its key set")
     pack.assume("element __eq__/__ne__/__hash__ are pure; a != b is the negation of a == b for elements (default __ne__)")
     j = z3.Int("j")
 
@@ -153,6 +155,90 @@ def build(active_known=frozenset()):
     c.replay(lambda m, ctx, ob: HASH_REPLAY)
     c.replay_without_model = True
 
+    # ------------------------------------------------------------------ maps and sets: equal exactly when they have equal entries
+    from basilisp.lang.map import PersistentMap
+    from basilisp.lang.set import PersistentSet
+    from collections.abc import Set as AbstractSet_
+    from pyvc.engine import BoundMethod
+
+    def parts(st, obj):
+        a_ = V.Val.a(z3.Select(st.field_array("_inner"), V.Val.a(obj)))
+        return V.map_of(a_), V.dom_of(a_), lib.map_size(a_)
+
+    kq = z3.Const("kq", V.Val)
+
+    def map_setup(eng, st):
+        setup(eng, st)
+        IMap = eng.libcls["IMap"]
+
+        def imap_eq(e, s, a, k):
+            # trusted (immutables): Map == Map compares sizes, then looks every key of the left map up in the right one and compares the
+            # values with == ; Map == <anything else> is NotImplemented, so that Python tries the reflected other.__eq__(map)
+            me, other = a
+            if isinstance(other, SV) and other.hint is IMap:
+                a1, a2 = V.Val.a(me.t), V.Val.a(other.t)
+                same = z3.And(lib.map_size(a1) == lib.map_size(a2),
+                              z3.ForAll([kq], z3.Implies(z3.Select(V.dom_of(a1), kq),
+                                                         z3.And(z3.Select(V.dom_of(a2), kq), z3.Not(py_ne(z3.Select(V.map_of(a1), kq), z3.Select(V.map_of(a2), kq)))))))
+                yield s, SV(V.mk_bool(same))
+                return
+            if isinstance(other, SV) and other.hint is not None:
+                m_ = e.lookup_method(other.hint, "__eq__")
+                if m_ is None:
+                    raise Unsupported("reflected == on a class without __eq__")
+                s.ghost["reflected_eq"] = s.ghost.get("reflected_eq", 0) + 1
+                if s.ghost["reflected_eq"] > 2:
+                    raise Unsupported("reflected == does not settle")
+                yield from e.call(BoundMethod(other, m_), [me], {}, s)
+                return
+            raise Unsupported("immutables.Map == a value of unknown class")
+
+        eng.method_models[(IMap, "__eq__")] = Model("immutables.Map.__eq__ (trusted: same size and equal entries; NotImplemented -> reflected __eq__)", imap_eq)
+
+        def abstract_set_eq(e, s, a, k):
+            # trusted (collections.abc.Set.__eq__): len(self) == len(other) and every element of self is in other
+            me, other = a
+            n1 = yield_len(e, s, me)
+            n2 = yield_len(e, s, other)
+            d1, d2 = parts(s, me.t)[1], parts(s, other.t)[1]
+            yield s, SV(V.mk_bool(z3.And(n1 == n2, z3.ForAll([kq], z3.Implies(z3.Select(d1, kq), z3.Select(d2, kq))))))
+
+        def yield_len(e, s, obj):
+            return parts(s, obj.t)[2]
+
+        eng.models[id(AbstractSet_.__eq__)] = Model("collections.abc.Set.__eq__ (trusted: equal sizes and every member of the left set is a member of the right one)", abstract_set_eq)
+
+    def entries_equal(a, with_values):
+        m1, d1, n1 = parts(a.pre.st, a.self)
+        m2, d2, n2 = parts(a.pre.st, a.other)
+        per_key = z3.Select(d2, kq)
+        if with_values:
+            per_key = z3.And(per_key, lisp_eq(z3.Select(m1, kq), z3.Select(m2, kq)))
+        return z3.And(n1 == n2, z3.ForAll([kq], z3.Implies(z3.Select(d1, kq), per_key)))
+
+    for C, with_values, what in ((PersistentMap, True, "two maps are equal exactly when they have the same number of entries and every key of one is a key of the other with an equal value "
+                                  "(nil is a value like any other: an entry holding nil is not matched by a missing key)"),
+                                 (PersistentSet, False, "two sets are equal exactly when they have the same number of members and every member of one is a member of the other")):
+        c = pack.contract(f"{C.__module__}:{C.__name__}.__eq__")
+        c.label = "against the same kind of collection"
+        c.param("self", OBJ(C)).param("other", OBJ(C))
+        c.setup(map_setup)
+        c.requires("both wrap an immutables.Map whose recorded size is the number of its keys: not negative, and two key sets of the same size include each other both "
+                   "ways or not at all (finite sets); element == is symmetric (assumed of elements, as the property demands of =)",
+                   lambda a: (lambda d1, n1, d2, n2, x_, y_: z3.And(
+                       n1 >= 0, n2 >= 0,
+                       z3.Implies(n1 == n2, z3.ForAll([kq], z3.Implies(z3.Select(d1, kq), z3.Select(d2, kq))) == z3.ForAll([kq], z3.Implies(z3.Select(d2, kq), z3.Select(d1, kq)))),
+                       z3.ForAll([x_, y_], py_ne(x_, y_) == py_ne(y_, x_))))(
+                           parts(a.pre.st, a.self)[1], parts(a.pre.st, a.self)[2], parts(a.pre.st, a.other)[1], parts(a.pre.st, a.other)[2], z3.Const("x_", V.Val), z3.Const("y_", V.Val)))
+        if with_values and "C05-bool-vs-number-elements" in active_known:
+            c.requires("[carve-out of known finding C05-bool-vs-number-elements] no key holds a boolean/nil in one map and a different value that Python's == identifies with it in the other",
+                       lambda a: z3.ForAll([kq], (lambda x_, y_: z3.Implies(z3.Or(is_boolish(x_), is_boolish(y_)), z3.Not(py_ne(x_, y_)) == (x_ == y_)))(
+                           z3.Select(parts(a.pre.st, a.self)[0], kq), z3.Select(parts(a.pre.st, a.other)[0], kq))))
+        c.raises()
+        c.ensures(what, lambda a, with_values=with_values: z3.And(V.is_bool(a.result), V.Val.b(a.result) == z3.Or(a.self == a.other, entries_equal(a, with_values))))
+        c.replay(lambda m, ctx, ob: MAPSET_REPLAY.replace("KNOWN_BOOL_FINDING", repr("C05-bool-vs-number-elements" in active_known)))
+        c.replay_without_model = True
+
     # ------------------------------------------------------------------ lemmas about the spec relation
     e = z3.Function("elem_eq", V.Val, V.Val, z3.BoolSort())
     x, y, w = z3.Consts("x y w", V.Val)
@@ -167,6 +253,32 @@ def build(active_known=frozenset()):
     pack.lemma("sequence equality is transitive when element equality is", lambda: (equiv + [seq_eq(SA, SB, "1"), seq_eq(SB, SC, "2")], seq_eq(SA, SC, "3")))
     pack.lemma("equal views hash equal for every pair of representation classes (all hash H_tuple of the view)", lambda: ([SA == SB], H_tuple(SA) == H_tuple(SB)))
     return pack
+
+
+MAPSET_REPLAY = r'''
+import itertools
+from basilisp.lang import map as lmap, set as lset, keyword as kw, runtime
+a, b, c_ = kw.keyword("a"), kw.keyword("b"), kw.keyword("c")
+maps = [lmap.map({}), lmap.map({a: None}), lmap.map({b: None}), lmap.map({a: 1}), lmap.map({b: 1}), lmap.map({a: None, b: 1}), lmap.map({a: 1, b: None}), lmap.map({a: 1, b: 2}),
+        lmap.map({a: 1, c_: 2}), lmap.map({a: 1}, meta=lmap.map({b: 2})), lmap.map({a: lmap.map({b: None})}), lmap.map({a: lmap.map({c_: None})})]
+sets = [lset.s(), lset.s(None), lset.s(a), lset.s(a, b), lset.s(a, c_), lset.s(None, a), lset.s(b, a), lset.s(a, meta=lmap.map({b: 2}))]
+bad = []
+def entries(m):
+    return sorted(((repr(k), repr(v)) for k, v in m.items())) if hasattr(m, "items") else sorted(repr(x) for x in m)
+for coll in (maps, sets):
+    for x, y in itertools.product(coll, repeat=2):
+        want = entries(x) == entries(y)
+        got = runtime.equals(x, y)
+        if got != want:
+            bad.append("(= %r %r) is %r, the entries are %s" % (x, y, got, "equal" if want else "different"))
+        if runtime.equals(x, y) != runtime.equals(y, x):
+            bad.append("(= %r %r) and (= %r %r) differ" % (x, y, y, x))
+        if got and hash(x) != hash(y):
+            bad.append("%r and %r are = but hash differently" % (x, y))
+for line in bad[:10]:
+    print(line)
+print("REPRODUCED" if bad else "not reproduced")
+'''
 
 
 ELEM_REPLAY = r'''
